@@ -245,7 +245,7 @@ class C10(Prop):
         from vcore.links_lex import link_lexer_fns
         from vcore.links_gram import link_grammar
         from vcore.links_models import link_models
-        return [link_binning, link_lexer_fns, link_grammar, link_models, links_misc.link_pipeline, links_misc.link_sly_confinement, links_misc.link_lean,
+        return [link_binning, link_lexer_fns, link_grammar, link_models, link_evaluator, links_misc.link_pipeline, links_misc.link_sly_confinement, links_misc.link_lean,
                 links_misc.link_thorough_binning] + links_gen.links_for("C10")
 
     def canaries(self, ctx):
@@ -309,8 +309,7 @@ class C11(Prop):
     def links(self, ctx):
         # which texts are invalid is the recogniser's business: the LR tables (vs an independent LALR(1) construction, no
         # defaulted accept state) serve 'an invalid recompile raises' as well
-        from vcore.links_gram import link_grammar
-        return [link_evaluator, link_grammar]
+        return [link_evaluator] + _gram() + _misc("link_sly_confinement")
 
     def canaries(self, ctx):
         t = "pyab_experiment.experiment_evaluator.ExperimentEvaluator.recompile"
@@ -466,7 +465,7 @@ class C01(Prop):
     explanation = "havoc-free result terms + frames on binning, recompile, __call__, parse_source; sorted-set discipline and key-is-an-expression in the generator; confinement scan; cross-process transcripts (bounded)"
 
     def links(self, ctx):
-        return [link_binning, link_evaluator] + _gen() + _misc("link_sly_confinement", "link_transcripts", "link_pipeline")
+        return [link_binning, link_evaluator] + _gram() + _gen() + _misc("link_sly_confinement", "link_transcripts", "link_pipeline")
 
     def canaries(self, ctx):
         return [gen_canary("unsorted-local-vars", "return sorted(self._local_vars)", "return list(self._local_vars)", r"local_vars/==sorted|deterministic-order|generate_key_definition/.*\["),
@@ -581,7 +580,7 @@ class C09(Prop):
     explanation = "key template == salt literal + ''.join(map(str,[sorted distinct splitters])) mentioning no other name; signature ends in **kwargs, parameters = splitters U condition fields; helper called by keyword; __call__ forwards **kwargs only"
 
     def links(self, ctx):
-        return _gen() + [link_evaluator] + _misc("link_pipeline", "link_sly_confinement")
+        return _lex() + _gram() + _gen() + [link_evaluator] + _misc("link_pipeline", "link_sly_confinement")
 
     def canaries(self, ctx):
         return [gen_canary("declaration-order-key", "return sorted(self._local_vars)", "return list(self._experiment_ast.splitting_fields)", r"generate_key_definition/.*\[|local_vars"),
